@@ -4,9 +4,9 @@ from __future__ import annotations
 import ast
 
 from ..flow import ReachingDefs
-from ..program import (AnalysisError, call_name, dotted, kwarg, norm_key,
+from ..program import (AnalysisError, call_name, const_str, dotted, kwarg, norm_key,
                        unparse, walk_no_nested)
-from ..util import (assigns_to_self_attr, calls_named, cursor_execute_calls,
+from ..util import (assigns_to_self_attr, expand_expr, calls_named, cursor_execute_calls,
                     for_heads,
                     is_self_attr, loop_body_ids, nodes_with_call,
                     signal_sends)
@@ -502,8 +502,28 @@ def r4_failing_statement(ctx):
     ctx.floor('handlers around run_sql calls', n_handlers, 4)
     # the command prints it
     cmd = p.func('management.commands.evolve', 'Command._perform_evolution')
-    if 'last_sql_statement' in {x.attr for x in ast.walk(cmd.node)
-                                if isinstance(x, ast.Attribute)}:
+    # some write() in an exception handler carries the exception's
+    # last_sql_statement (e.last_sql_statement or getattr(e, '...'), read
+    # directly or through a single-assignment local)
+    def _mentions(e):
+        for x in ast.walk(e):
+            if isinstance(x, ast.Attribute) and \
+                    x.attr == 'last_sql_statement':
+                return True
+            if isinstance(x, ast.Call) and call_name(x) == 'getattr' and \
+                    len(x.args) >= 2 and \
+                    const_str(x.args[1]) == 'last_sql_statement':
+                return True
+        return False
+    reported = False
+    for h in ast.walk(cmd.node):
+        if not isinstance(h, ast.ExceptHandler):
+            continue
+        for c in ast.walk(h):
+            if isinstance(c, ast.Call) and call_name(c) == 'write' and \
+                    any(_mentions(expand_expr(cmd, a)) for a in c.args):
+                reported = True
+    if reported:
         ctx.ok(cmd, 'the command reports e.last_sql_statement')
     else:
         ctx.finding(cmd, None, 'evolve command no longer reports the failing '
